@@ -1512,27 +1512,31 @@ def rule_T4(ctx):
     # keygroup chain length comes from a 1-byte field
     pm = ctx.prog.module("smpl_extract/akai/program.py")
     pp = ctx.prog.assigned("smpl_extract/akai/program.py", "ProgramParser", "T4")
-    found = False
-    for node in ast.walk(pp):
-        if isinstance(node, ast.Subscript) and isinstance(node.value, ast.Name) and node.value.id == "KeygroupLinkConstruct":
-            found = True
-            n += 1
-            cnt = node.slice
-            d = dotted(cnt) if isinstance(cnt, ast.Attribute) else None
-            ok = False
-            det = f"count expression `{norm(cnt)}` is not a header field"
-            if d and d.startswith("this.header."):
-                fld = d.split(".")[-1]
-                try:
-                    L = lay.of_name(pm, "ProgramHeaderConstruct")
-                    f = L.field(fld)
-                    ok = f is not None and f.size == 1
-                    det = "" if ok else f"header field `{fld}` is {f.size if f else '?'} bytes wide: keygroup count no longer bounded by 255"
-                except Unknown as e:
-                    raise AnalysisError("T4", where(node), f"layout: {e}")
-            ctx.ob("T4", node, "keygroup chain length is a 1-byte header field (<= 255 keygroups)", ok, det, inst="KeygroupLinkConstruct[count]")
-    if not found:
+    # decided on the evaluated layout (however the array is spelled: subcon[count], Array(count, subcon), through a named temporary)
+    from ..core.layout import Arr, Sym
+    try:
+        PL = lay.of_name(pm, "ProgramParser")
+        kg = PL.field("keygroups")
+    except Unknown as e:
+        raise AnalysisError("T4", "smpl_extract/akai/program.py:ProgramParser", f"layout: {e}")
+    core = kg
+    while core is not None and not isinstance(core, Arr) and hasattr(core, "inner"):
+        core = core.inner
+    if not isinstance(core, Arr):
         raise AnalysisError("T4", "smpl_extract/akai/program.py:ProgramParser", "KeygroupLinkConstruct[...] array not found")
+    n += 1
+    cnt = core.count
+    ok, det = False, f"count expression `{cnt}` is not a header field"
+    if isinstance(cnt, Sym) and cnt.name.startswith("header.") and cnt.name.count(".") == 1:
+        fld = cnt.name.split(".")[1]
+        try:
+            f = lay.of_name(pm, "ProgramHeaderConstruct").field(fld)
+        except Unknown as e:
+            raise AnalysisError("T4", where(pp), f"layout: {e}")
+        ok = f is not None and f.size == 1
+        det = "" if ok else f"header field `{fld}` is {f.size if f else '?'} bytes wide: keygroup count no longer bounded by 255"
+    ctx.ob("T4", pp, "keygroup chain length is a 1-byte header field (<= 255 keygroups)", ok, det, inst="KeygroupLinkConstruct[count]",
+           file="smpl_extract/akai/program.py", qualname="<module>")
     # transcoder default block size is a constant
     v = ctx.const("smpl_extract/transcoder.py", "_DEFAULT_BUFFER_SIZE", "T4")
     node = ctx.prog.assigned("smpl_extract/transcoder.py", "_DEFAULT_BUFFER_SIZE")
